@@ -5,6 +5,7 @@ import (
 
 	ss "verif/mc/specstep"
 	"verif/mc/sys/locksvc"
+	"verif/mc/sys/pbkvs"
 	"verif/mc/sys/raftkvs"
 )
 
@@ -54,6 +55,19 @@ SPECIFICATION Spec
 			Name: fmt.Sprintf("raftkvs-S%d-T%d-C%d-fail%v", rc.ns, rc.mt, rc.mci, rc.fail), SpecDir: "systems/raftkvs", Module: "raftkvs", Quick: rc.quick,
 			Cfg: raftCfg(rc.ns, rc.mt, rc.mci, rc.fail), Sys: func() *ss.System { return raftkvs.New(cfg) }, Constraint: cfg.Constraint,
 			Rename: raftRename, SkipSpecVars: raftSkip, SkipGoGlobals: []string{"timeout"},
+		})
+	}
+	for _, pc := range []struct {
+		nr, nc int
+		quick  bool
+	}{{2, 1, true}, {3, 1, false}, {2, 2, false}} {
+		pc := pc
+		cfg := pbkvs.Config{NumReplicas: pc.nr, NumClients: pc.nc, ExploreFail: true}
+		out = append(out, &pair{
+			Name: fmt.Sprintf("pbkvs-R%d-C%d", pc.nr, pc.nc), SpecDir: "systems/pbkvs", Module: "pbkvs", Quick: pc.quick,
+			Cfg: fmt.Sprintf("CONSTANT defaultInitValue = defaultInitValue\nCONSTANT NUM_REPLICAS = %d\nCONSTANT NUM_CLIENTS = %d\nCONSTANT DEBUG = FALSE\nCONSTANT EXPLORE_FAIL = TRUE\nCONSTRAINT VersionNumberCnst\nSPECIFICATION Spec\n", pc.nr, pc.nc),
+			Sys: func() *ss.System { return pbkvs.New(cfg) }, Constraint: cfg.Constraint,
+			Rename: map[string]string{"AClient.req": "req0", "AClient.resp": "resp0", "AClient.replica": "replica0", "AClient.idx": "idx0"},
 		})
 	}
 	return append(out, morePairs()...)
